@@ -131,8 +131,8 @@ func enterInterfaceMethod(ctx antlr.ParserRuleContext, body IInterfaceCommonBody
 	var methodParams []core_domain.CodeProperty = nil
 	parameters := body.(*InterfaceCommonBodyDeclarationContext).FormalParameters()
 	if parameters != nil {
-		if reflect.TypeOf(parameters.GetChild(1)).String() == "*parser.FormalParameterListContext" {
-			allFormal := parameters.GetChild(1).(*FormalParameterListContext)
+		// the list stands behind a receiver parameter in `void f(A this, int a)`: ask the rule, not a position
+		if allFormal, ok := parameters.(*FormalParametersContext).FormalParameterList().(*FormalParameterListContext); ok {
 			formalParameter := allFormal.AllFormalParameter()
 			for _, param := range formalParameter {
 				paramContext := param.(*FormalParameterContext)
@@ -209,8 +209,8 @@ func (s *BadSmellListener) EnterMethodDeclaration(ctx *MethodDeclarationContext)
 	var methodParams []core_domain.CodeProperty = nil
 	parameters := ctx.FormalParameters()
 	if parameters != nil {
-		if reflect.TypeOf(parameters.GetChild(1)).String() == "*parser.FormalParameterListContext" {
-			allFormal := parameters.GetChild(1).(*FormalParameterListContext)
+		// the list stands behind a receiver parameter in `void f(A this, int a)`: ask the rule, not a position
+		if allFormal, ok := parameters.(*FormalParametersContext).FormalParameterList().(*FormalParameterListContext); ok {
 			formalParameter := allFormal.AllFormalParameter()
 			for _, param := range formalParameter {
 				paramContext := param.(*FormalParameterContext)
